@@ -25,6 +25,7 @@ def opOf (op : String) (ts : List String) : Option (Nat × AllocTree) :=
   let a : G := ⟨g "arank", g "asize", g "ab2k"⟩
   let k : K := ⟨g "krin", g "krout", g "ksize", g "kb2k", g "dnum", g "dsize"⟩
   match op with
+  | "split_mut" => some (g "cnt" * g "len", .par (g "cnt") (g "len") .done .done)
   -- HAL
   | "vec_znx_normalize" => some (normTmp n, treeNormalize n)
   | "vec_znx_lsh" => some (lshTmp n, treeLsh n)
